@@ -304,6 +304,30 @@ func RunC03(args []string) *rep.Report {
 			case gok && got != headCid(hc.Out.Head):
 				diverge("wrong-head-returned", "GetHead", headObs{Ok: gok, Head: got.String()})
 			}
+			// the same two steps on ONE Syncer (the subscriber keeps a publisher's Syncer while its addresses are unchanged):
+			// an honest head of the expected publisher, then the crafted response
+			if one, err := shared.NewSyncer(peer.AddrInfo{ID: expected, Addrs: []multiaddr.Multiaddr{hs.maddr()}}); err == nil {
+				for _, hname := range []string{"h1", "h2"} {
+					if honest, err := head.NewSignedHead(headCid(hname), topicOf(hc.Case.Topic), ids.KeyT(hc.Case.Expected, kt)); err == nil {
+						if henc, err := honest.Encode(); err == nil {
+							hs.set(henc)
+							if g, err := one.GetHead(ctx); err != nil || g != headCid(hname) {
+								diverge("honest-head-rejected", fmt.Sprintf("honest head %s of %s on a reused Syncer: %v", hname, hc.Case.Expected, err), nil)
+							}
+						}
+					}
+					hs.set(enc)
+					got, gerr := one.GetHead(ctx)
+					syncs++
+					gok := gerr == nil && got != cid.Undef
+					switch {
+					case gok != hc.Out.Ok:
+						diverge(map[bool]string{true: "accepted:" + hc.Case.Alt, false: "honest-head-rejected"}[gok], "GetHead on a Syncer that accepted an honest head of the expected publisher before", headObs{Ok: gok, Err: fmt.Sprint(gerr)})
+					case gok && got != headCid(hc.Out.Head):
+						diverge("wrong-head-returned", "GetHead on a reused Syncer", headObs{Ok: gok, Head: got.String()})
+					}
+				}
+			}
 			// (c) rejected head => Subscriber.SyncAdChain fails, requests nothing further and records nothing
 			if !hc.Out.Ok && kt == kts[idx%3] {
 				hs.set(enc)
@@ -312,11 +336,41 @@ func RunC03(args []string) *rep.Report {
 					_, serr := sub.SyncAdChain(ctx, peer.AddrInfo{ID: expected, Addrs: []multiaddr.Multiaddr{hs.maddr()}})
 					latest := sub.GetLatestSync(expected)
 					after := hs.afterHead()
-					sub.Close()
 					syncs++
 					if serr == nil || latest != nil || len(after) != 0 {
 						diverge("rejected-head-acted-on", fmt.Sprintf("SyncAdChain err=%v latest=%v requests after /head=%v", serr, latest, after), nil)
 					}
+					// the same subscriber again, after it has seen an honest head of the expected publisher (its sync then fails
+					// at the first block, which this server does not have): what the publisher's Syncer remembers must not help
+					if honest, err := head.NewSignedHead(headCid("h2"), topicOf(hc.Case.Topic), ids.KeyT(hc.Case.Expected, kt)); err == nil {
+						if henc, err := honest.Encode(); err == nil {
+							hs.set(henc)
+							sub.SyncAdChain(ctx, peer.AddrInfo{ID: expected, Addrs: []multiaddr.Multiaddr{hs.maddr()}})
+							hs.set(enc)
+							_, serr := sub.SyncAdChain(ctx, peer.AddrInfo{ID: expected, Addrs: []multiaddr.Multiaddr{hs.maddr()}})
+							latest := sub.GetLatestSync(expected)
+							after := hs.afterHead()
+							syncs++
+							if serr == nil || latest != nil || len(after) != 0 {
+								diverge("rejected-head-acted-on", fmt.Sprintf("second SyncAdChain of one subscriber, after an honest head: err=%v latest=%v requests after /head=%v", serr, latest, after), nil)
+							}
+						}
+					}
+					// the address names the identity that signed the response (/p2p/<signer>) while the caller expects another
+					// publisher: the caller's expectation decides
+					if signer := ids.PeerT(hc.Case.Pub, kt); signer != expected {
+						if withID, err := multiaddr.NewMultiaddr(hs.maddr().String() + "/p2p/" + signer.String()); err == nil {
+							hs.set(enc)
+							_, serr := sub.SyncAdChain(ctx, peer.AddrInfo{ID: expected, Addrs: []multiaddr.Multiaddr{withID}})
+							after := hs.afterHead()
+							syncs++
+							if serr == nil || sub.GetLatestSync(expected) != nil || sub.GetLatestSync(signer) != nil || len(after) != 0 {
+								diverge("rejected-head-acted-on", fmt.Sprintf("SyncAdChain with expected publisher %s and an address ending in /p2p/<signer>: err=%v requests after /head=%v latest(signer)=%v",
+									hc.Case.Expected, serr, after, sub.GetLatestSync(signer)), nil)
+							}
+						}
+					}
+					sub.Close()
 				}
 			}
 			// (d) byte alterations of an honest encoding: accepted only if the decoded value is unchanged
